@@ -49,6 +49,8 @@ static void workflow(const Workload& w, Obs& obs, std::map<std::string, long>* p
             for (int i = 0; i < m.rows(); i++) for (int j = 0; j < m.cols(); j++) { ComplexType z = m(i, j); vecs.push_back(z.real()); vecs.push_back(z.imag()); }
         }
         ev.push_back(s0.H->getGroundEnergy());
+        { RealVectorType all = s0.H->getEigenValues(); for (int i = 0; i < all.size(); i++) ev.push_back(all[i]); }   // the concatenated spectrum, as the interface returns it
+        for (unsigned long st = 0; st < s0.S->getNumberOfStates(); st++) ev.push_back(s0.H->getEigenValue(QuantumState(st)));
         put(obs, "eigenvalues", ev); put(obs, "eigenvectors", vecs);
     }
     models::Stage1 s1(s0, w.beta);
